@@ -33,6 +33,12 @@ func deviationsAt(sc *dscenario, rec sim.Rec) []string {
 	}
 	if rec.Class == sim.ClSave {
 		l = append(l, sim.DevNoOK)
+		if sc.devType == "IOS" {
+			l = append(l, sim.DevSaveAbort)
+		}
+	}
+	if (sc.devType == "ASA" || sc.devType == "IOS") && (rec.Class == sim.ClRead || rec.Class == sim.ClChange) && rec.Text != "" {
+		l = append(l, sim.DevAuthz)
 	}
 	if rec.Class == sim.ClRead && (rec.Text == "sh run" || rec.Text == "write term" || rec.Text == "iptables-save") {
 		l = append(l, sim.DevBadConf)
